@@ -22,6 +22,10 @@ func genClosures(r *rand.Rand, id string, tier string) string {
 	var recv V
 	if r.Intn(3) == 0 {
 		recv = V{T: 'C', Form: "n", Kw: []string{"k", "", "cn"}[r.Intn(3)], Op: []string{"c1", "c3", "c0", "-"}[r.Intn(4)], Xs: []V{{T: 'i', I: int64(r.Intn(9))}}}
+		if r.Intn(4) == 0 {
+			// a Stack expression (any form) that may carry an Unmarshaler of its own: Condition.Unmarshal honours it
+			recv.Xs = []V{{T: 'K', Form: forms[r.Intn(4)], Cfg: Cfg{Kind: 1 + r.Intn(4), Umf: r.Intn(4)}, Xs: []V{{T: 's', S: "x"}}}}
+		}
 		if r.Intn(3) == 0 {
 			recv.Cfg.Opt |= fParen // a presentation closure's result is returned as it is, options or not
 		}
@@ -40,6 +44,20 @@ func genClosures(r *rand.Rand, id string, tier string) string {
 		for i, n := 0, r.Intn(4); i < n; i++ {
 			recv.Xs = append(recv.Xs, V{T: 's', S: fmt.Sprintf("v%d", i)})
 		}
+		if r.Intn(3) == 0 {
+			// nested nodes with Unmarshalers of their own (a directly nested Stack's is ignored, a nested Condition's and a
+			// Condition-held Stack's are honoured, an error ends the walk), between plain elements
+			switch r.Intn(3) {
+			case 0:
+				recv.Xs = append(recv.Xs, V{T: 'K', Form: forms[r.Intn(4)], Cfg: Cfg{Kind: 2, Umf: 1 + r.Intn(3)}, Xs: []V{{T: 'i', I: 7}}})
+			case 1:
+				recv.Xs = append(recv.Xs, V{T: 'C', Form: forms[r.Intn(4)], Cfg: Cfg{Umf: 1 + r.Intn(3)}, Kw: "nk", Op: "c1", Xs: []V{{T: 'i', I: 8}}})
+			case 2:
+				recv.Xs = append(recv.Xs, V{T: 'C', Form: forms[r.Intn(4)], Kw: "nh", Op: "c1",
+					Xs: []V{{T: 'K', Form: forms[r.Intn(4)], Cfg: Cfg{Kind: 4, Umf: 1 + r.Intn(3)}, Xs: []V{{T: 'i', I: 9}}}}})
+			}
+			recv.Xs = append(recv.Xs, V{T: 's', S: "tail"})
+		}
 		if r.Intn(4) == 0 {
 			// a read-only member: Free of the (writable) holder is the holder's business alone
 			recv.Xs = append(recv.Xs, V{T: 'K', Form: []string{"n", "a"}[r.Intn(2)], Cfg: Cfg{Kind: 2, Opt: fRO}, Xs: []V{{T: 'i', I: 1}}})
@@ -55,7 +73,7 @@ func genClosures(r *rand.Rand, id string, tier string) string {
 		case 4:
 			ops = append(ops, []string{"epol 0", "epol 1", "epol 2", "epol -"}[r.Intn(4)])
 		case 5:
-			ops = append(ops, []string{"upol 0", "upol 1", "upol -"}[r.Intn(3)])
+			ops = append(ops, []string{"upol 0", "upol 1", "upol -", "upol 2", "upol 3"}[r.Intn(5)])
 		case 6:
 			if recv.T == 'K' {
 				ops = append(ops, []string{"mpol 0", "mpol 1", "mpol 2", "mpol -"}[r.Intn(4)])
